@@ -52,6 +52,18 @@ theorem ChOK.keys_ge {KB : Nat} : ∀ {cs : List (Nat × Option (V × Bool))} {l
     · exact h1
     · have := ih h4 x (by simpa using hx); omega
 
+theorem ChOK.keys_lt {KB : Nat} : ∀ {cs : List (Nat × Option (V × Bool))} {lo : Nat}, ChOK KB lo cs →
+    ∀ c ∈ cs, c.1 < KB := by
+  intro cs
+  induction cs with
+  | nil => intro lo _ c hc; simp at hc
+  | cons c cs ih =>
+    intro lo h x hx
+    obtain ⟨k, ch⟩ := c
+    rcases List.mem_cons.1 hx with rfl | hx
+    · exact h.2.1
+    · exact ih h.2.2.2 x hx
+
 /-! ## `while !leaf_updater.is_in_scope(&key) { digest; reset_leaf_base }` -/
 
 theorem scopeLoop_spec (sepf : Nat → Nat → Option Nat) (KB : Nat) (hsep : SepOK sepf KB) (k : Nat)
